@@ -361,8 +361,16 @@ func execStream(p *Plan, run *core.Run) {
 			}
 			chunk := data.Bytes(op.N)
 			before := len(m.absorbed)
+			// io.Writer: Write must not modify the slice and must not retain it — the caller's
+			// buffer is refilled as soon as Write has returned
+			keep := append([]byte{}, chunk...)
 			o.Write(chunk)
-			m.absorbed = append(m.absorbed, chunk...)
+			if !bytes.Equal(chunk, keep) {
+				run.Violate(comp, "modifies-its-input", "Write changed the %d-byte buffer it was given", len(chunk))
+				return
+			}
+			core.Recycle(chunk)
+			m.absorbed = append(m.absorbed, keep...)
 			run.Event("obj", "write", op.Obj, op.N)
 			run.Tick(1)
 			if op.N > 0 && op.N < rate {
